@@ -27,6 +27,14 @@ pub struct DiagSide {
     pub a: u64,
     /// window of the last ACK-bearing non-RST segment delivered to this side
     pub w: Option<u32>,
+    /// window of the newest advertisement (in the peer's emission order)
+    /// delivered to this side, with that order number: what a sender that
+    /// ignores overtaken ACKs believes
+    pub w_newest: Option<(u64, u32)>,
+    /// window of the last delivered ACK that was not older than the highest
+    /// ACK delivered before it: what a sender that ignores ACKs lying before
+    /// its `snd_una` believes
+    pub w_valid: Option<u32>,
     /// window of the last ACK-bearing segment this side emitted
     pub last_win_emitted: Option<u16>,
     /// highest ACK number this side emitted (relative to the peer's ISN)
@@ -80,7 +88,8 @@ impl Diag {
         }
     }
 
-    pub fn deliver(&mut self, dir: Dir, s: &TcpSegment) {
+    /// `order` = position of the segment in the emission order of the run.
+    pub fn deliver(&mut self, dir: Dir, s: &TcpSegment, order: u64) {
         let (x, y) = (dir.idx(), dir.rev().idx());
         if s.flags.rst {
             self.sides[x].rst_seen = true;
@@ -93,7 +102,13 @@ impl Diag {
         if s.flags.ack {
             let sy = &mut self.sides[y];
             sy.w = Some(s.window as u32);
+            if sy.w_newest.map(|(o, _)| order > o).unwrap_or(true) {
+                sy.w_newest = Some((order, s.window as u32));
+            }
             let ra = Self::rel(sy.iss, s.ack);
+            if ra != u64::MAX && ra >= sy.a {
+                sy.w_valid = Some(s.window as u32);
+            }
             let limit = sy.fin_rel.map(|f| f + 1).unwrap_or(sy.max_data_end);
             if ra != u64::MAX && ra > sy.a && ra <= limit.max(1) {
                 sy.a = ra;
@@ -118,7 +133,11 @@ impl Diag {
         let acked_bytes = sx.a.min(sx.max_data_end).saturating_sub(1);
         let fin_acked = sx.fin_rel.map(|f| sx.a > f).unwrap_or(false);
         let pending = bytes_accepted > acked_bytes || (fin_requested && !fin_acked);
-        sx.w == Some(0) && pending && sy.last_win_emitted.map(|w| w > 0).unwrap_or(false)
+        // the sender's view of the window is zero under one of the plausible
+        // update rules: it follows whatever ACK arrived last, or the last one
+        // that was not older than its snd_una, or the newest in emission order
+        let view_zero = sx.w == Some(0) || sx.w_valid == Some(0) || sx.w_newest.map(|(_, w)| w == 0).unwrap_or(false);
+        view_zero && pending && sy.last_win_emitted.map(|w| w > 0).unwrap_or(false)
     }
 
     /// Known defect K2 — "closed peer ignores a retransmitted FIN": the
